@@ -166,7 +166,25 @@ impl C17 {
             // (whose accounts are funded on the copy): exact-in - leg one with the amount, leg two fed exactly what pool one's
             // vault paid out (the same fee comes off on the way into pool two's vault); exact-out - leg two with the amount, leg
             // one asked to deliver exactly what pool two's vault took in. If both fill completely, the amounts do match.
-            if !two_hop_ok && two_hop_code == Some(6051) && lg.v2 {
+            // (likewise a refusal that blames the list of remaining accounts - duplicated slice type, invalid or insufficient
+            // slices - although each slice type is listed once and the lengths add up to the accounts that were sent)
+            let slices_well_formed = {
+                let d = &v_ix.data;
+                let n_named = c.info.accounts.len();
+                if d.len() > 59 && d[59] == 1 && d.len() >= 64 {
+                    let n = u32::from_le_bytes([d[60], d[61], d[62], d[63]]) as usize;
+                    if d.len() >= 64 + 2 * n {
+                        let sl: Vec<(u8, usize)> = (0..n).map(|i| (d[64 + 2 * i], d[65 + 2 * i] as usize)).collect();
+                        let distinct_types = (0..n).all(|i| (0..i).all(|j| sl[i].0 != sl[j].0));
+                        distinct_types && sl.iter().all(|(_, len)| *len > 0) && sl.iter().map(|(_, len)| *len).sum::<usize>() == v_ix.accounts.len().saturating_sub(n_named)
+                    } else {
+                        false
+                    }
+                } else {
+                    false
+                }
+            };
+            if !two_hop_ok && (two_hop_code == Some(6051) || (slices_well_formed && matches!(two_hop_code, Some(6048) | Some(6049) | Some(6053)))) && lg.v2 {
                 let fund = |f: &mut Ledger, k: &Pubkey| {
                     if let Some(acc) = f.accts.get_mut(k) {
                         if acc.data.len() >= 72 {
@@ -217,7 +235,7 @@ impl C17 {
                     })();
                     cov.probe("fee_world_mismatch_refusals_decomposed");
                     if let Some(m) = matched {
-                        out.push(viol("rejected_without_reason", idx, format!("{} refused with IntermediateTokenAmountMismatch although the legs match as single swaps ({})", c.name(), m)));
+                        out.push(viol("rejected_without_reason", idx, format!("{} refused with error {:?} although the legs match as single swaps ({})", c.name(), two_hop_code, m)));
                         return;
                     }
                 }
